@@ -448,18 +448,16 @@ func (i *interpreter) concretize(x value) value {
 	return x
 }
 
-// indexIn returns a concrete index into a collection of length n, forking over
-// the in-range values of a symbolic index and raising the target's
-// index-out-of-range panic on the remaining feasible side.
+// indexIn returns a concrete index into a collection of length n: one decision
+// separates the out-of-range side (the target's panic), then the in-range
+// values are case-split.
 func (i *interpreter) indexIn(idx value, n int) int {
 	if s, ok := idx.(symI); ok {
 		tt := i.ps.tt
-		for c := 0; c < n; c++ {
-			if i.ps.branch(tt.Eq(s.t, tt.BV(s.t.w, uint64(c)))) {
-				return c
-			}
+		if !i.ps.branch(tt.bvcmp("bvult", s.t, tt.BV(s.t.w, uint64(n)))) {
+			i.rtPanic(fmt.Sprintf("index out of range [symbolic] with length %d", n))
 		}
-		i.rtPanic(fmt.Sprintf("index out of range [symbolic] with length %d", n))
+		return int(i.ps.pickValue(s.t))
 	}
 	v := asInt64(idx)
 	if v < 0 || v >= int64(n) {
@@ -472,12 +470,10 @@ func (i *interpreter) indexIn(idx value, n int) int {
 func (i *interpreter) boundIn(b value, max int) int {
 	if s, ok := b.(symI); ok {
 		tt := i.ps.tt
-		for c := 0; c <= max; c++ {
-			if i.ps.branch(tt.Eq(s.t, tt.BV(s.t.w, uint64(c)))) {
-				return c
-			}
+		if !i.ps.branch(tt.bvcmp("bvule", s.t, tt.BV(s.t.w, uint64(max)))) {
+			i.rtPanic(fmt.Sprintf("slice bounds out of range [symbolic] with capacity %d", max))
 		}
-		i.rtPanic(fmt.Sprintf("slice bounds out of range [symbolic] with capacity %d", max))
+		return int(i.ps.pickValue(s.t))
 	}
 	v := asInt64(b)
 	if v < 0 || v > int64(max) {
